@@ -23,10 +23,22 @@ static std::string scratch;
 struct rank_counting_buf : std::streambuf
 {
     std::atomic<long> bytes[64];
+    std::string text0; // what rank 0 printed
+    std::mutex m;
     rank_counting_buf() { for (auto& b : bytes) b = 0; }
-    int overflow(int c) override { ++bytes[vt_this_rank() & 63]; return c; }
-    std::streamsize xsputn(char const*, std::streamsize n) override { bytes[vt_this_rank() & 63] += (long) n; return n; }
-    void reset() { for (auto& b : bytes) b = 0; }
+    int overflow(int c) override
+    {
+        ++bytes[vt_this_rank() & 63];
+        if (vt_this_rank() == 0) { std::lock_guard<std::mutex> g(m); text0 += (char) c; }
+        return c;
+    }
+    std::streamsize xsputn(char const* p, std::streamsize n) override
+    {
+        bytes[vt_this_rank() & 63] += (long) n;
+        if (vt_this_rank() == 0) { std::lock_guard<std::mutex> g(m); text0.append(p, (std::size_t) n); }
+        return n;
+    }
+    void reset() { for (auto& b : bytes) b = 0; text0.clear(); }
 };
 static rank_counting_buf capture;
 
@@ -289,8 +301,11 @@ template <typename C> struct recording_cb
     hep::callback<C> inner;
     std::vector<long long>* texts;
     std::vector<long long>* rets;
+    std::vector<long long>* facts; // per iteration: calls, non-finite evaluations
     bool operator()(C const& c)
     {
+        facts->push_back((long long) c.results().back().calls());
+        facts->push_back((long long) (c.results().back().non_zero_calls() - c.results().back().finite_calls()));
         texts->push_back(ids().id("t:" + text_of(c)));
         bool r = inner(c);
         rets->push_back(r ? 1 : 0);
@@ -320,7 +335,7 @@ static void c20_run(rng& g, int shp, int variant, int world, double target)
     {
         std::string file = scratch + "/c20_" + std::to_string(mode) + ".chk";
         std::remove(file.c_str());
-        std::vector<long long> texts, rets;
+        std::vector<long long> texts, rets, facts;
         std::string status = "ok";
         long long final_text = 0;
         capture.reset();
@@ -329,7 +344,7 @@ static void c20_run(rng& g, int shp, int variant, int world, double target)
         {
             if (world == 0)
             {
-                C r = K::run(shp, variant, K::fresh(variant), plan, recording_cb<C>{hep::callback<C>((hep::callback_mode) mode, file, T(target)), &texts, &rets});
+                C r = K::run(shp, variant, K::fresh(variant), plan, recording_cb<C>{hep::callback<C>((hep::callback_mode) mode, file, T(target)), &texts, &rets, &facts});
                 final_text = ids().id("t:" + text_of(r));
             }
             else
@@ -361,7 +376,23 @@ static void c20_run(rng& g, int shp, int variant, int world, double target)
             std::ifstream in(file.c_str());
             if (in) { std::stringstream ss; ss << in.rdbuf(); file_text = ids().id("t:" + ss.str()); }
         }
-        ev("Lane").i("run", id).i("mode", mode).s("kind", K::name()).s("T", type_name<T>::get()).s("shape", shape_name(shp)).i("variant", variant)
+        // what the verbose modes printed about each iteration: "iteration K finished." and "this iteration: N=<calls> ... nnf=<non-finite>"
+        std::vector<long long> printed_iters, printed_n, printed_nnf;
+        {
+            std::istringstream in(capture.text0);
+            std::string line;
+            while (std::getline(in, line))
+            {
+                if (line.compare(0, 10, "iteration ") == 0 && line.find("finished") != std::string::npos) printed_iters.push_back(std::atoll(line.c_str() + 10));
+                else if (line.compare(0, 15, "this iteration:") == 0)
+                {
+                    std::size_t a = line.find("N="), b = line.find("nnf=");
+                    printed_n.push_back(a == std::string::npos ? -1 : std::atoll(line.c_str() + a + 2));
+                    printed_nnf.push_back(b == std::string::npos ? -1 : std::atoll(line.c_str() + b + 4));
+                }
+            }
+        }
+        ev("Lane").i("run", id).i("mode", mode).a("facts", facts).a("pIters", printed_iters).a("pN", printed_n).a("pNnf", printed_nnf).s("kind", K::name()).s("T", type_name<T>::get()).s("shape", shape_name(shp)).i("variant", variant)
             .i("world", world).i("targetPos", target > 0 ? 1 : 0).a("texts", texts).a("rets", rets).i("final", final_text).s("status", status)
             .i("printed0", printed0).i("printedOther", printed_other).i("fileText", file_text).emit();
     }
